@@ -200,4 +200,24 @@ PROPS['C05'] = {
                   'finding: label_fields shared by additional targets.',
 }
 
+def corr_classtab():
+    def run(tier, seed):
+        import corr_classtab as C
+        return C.run()
+    return run
+
+
+CLASSTAB_TRUSTED = ['translator/classtab.py (Python ast -> tables of class facts) is validated against run-time '
+                    'introspection of all exported classes (constructor signatures, persisted keys, target tables) on every run',
+                    'theorems over the finite tables are proved by vm_compute (the bound is the table itself)']
+PROPS['C14'] = {
+    'requires': [], 'corr': corr_classtab(), 'search': 'C14', 'trusted_base': CLASSTAB_TRUSTED,
+    'assumptions': ['float documents are compared at 1e-12 relative (to_tuple(bias=+-1) round trips)'],
+    'level_text': 'persist_complete (every constructor argument of every exported transform is in the persisted form) and '
+                  'the key/attribute agreement of BboxParams / KeypointParams / operator _to_dict are theorems over the '
+                  'class table regenerated from the source; behaviour preservation (same document, bit-identical outputs '
+                  'under the same seed, JSON and YAML carriers, every argument at non-default values) is explored.',
+    'level_note': 'Trusted: Coq kernel, classtab extractor (validated). Known finding: Equalize(mask, mask_params).',
+}
+
 NOT_CLAIMED = {}
